@@ -285,7 +285,16 @@ func (c19) Exec(t *testing.T, c *Case, replay []int) *Outcome {
 				}
 			})
 		}
-		blocked := s.Run(nil)
+		// at every step: only the fetcher inside a blocking Fetch may be asleep
+		blocked := s.Run(func() {
+			for _, id := range s.BlockedNow() {
+				if id != 0 {
+					fail("asserter-blocked", fmt.Sprintf("task %d went to sleep inside Assert/Clear", id))
+				} else if fetchState == "nonblock" {
+					fail("nonblocking-fetch-blocked", "Fetch(false) went to sleep")
+				}
+			}
+		})
 		if s.Panic != "" {
 			fail("panic", s.Panic)
 		}
